@@ -55,6 +55,11 @@ CONFIGS = {
                               "processing-instruction(p)", "processing-instruction(zz)", "Q{urn:x}a", "Q{urn:x}*", "Q{}a",
                               "namespace-node()"},
                        Preds=set(), ParenPreds=set(), Preds2=set(), DocSibs=False, NsTests=set())),
+        # unprefixed name tests under a default element namespace of the static context (2.0+ parsers)
+        ('N3-DNS', dict(N=3, Kinds={"ea", "en", "em", "xa"}, RootCfg="R1",
+                        Axes={"self", "child", "attribute", "parent", "descendant-or-self"},
+                        Tests={"*", "dns:a", "dns:b", "p:a", "*:a"}, Preds={"1"}, ParenPreds=set(), Preds2=set(),
+                        DocSibs=False, NsTests=set())),
         # steps with TWO predicates: the second numbers the survivors of the first along the axis
         ('N3-P2', dict(N=3, Kinds={"ea", "eb", "t"}, RootCfg="R1",
                        Axes={"child", "descendant", "ancestor", "ancestor-or-self", "preceding", "preceding-sibling",
@@ -105,6 +110,14 @@ XML_NS = 'http://www.w3.org/XML/1998/namespace'
 NS_URI = dict(NS, xml=XML_NS)
 
 
+DNS_MARK = '\u2063'      # invisible separator appended to a path text: evaluate with the default element namespace urn:x
+NS_DEFAULT = dict(NS, **{'': 'urn:x'})
+
+
+def ns_for(text: str):
+    return (NS_DEFAULT, text[:-1]) if text.endswith(DNS_MARK) else (NS, text)
+
+
 V2_MARKS = ('*:', 'element(', 'attribute(', 'document-node(', 'processing-instruction(p', 'processing-instruction(z')
 V3_MARKS = ('Q{', 'namespace-node(')
 
@@ -114,12 +127,14 @@ def min_version(text: str) -> str:
     are 2.0, braced URI literals and namespace-node() 3.0; processing-instruction('lit') is already 1.0)."""
     if any(m in text for m in V3_MARKS):
         return '3.0'
-    if any(m in text for m in V2_MARKS):
+    if any(m in text for m in V2_MARKS) or text.endswith(DNS_MARK):
         return '2.0'
     return '1.0'
 
 
 def step_text(action: str, args: tuple) -> str:
+    if len(args) > 1 and isinstance(args[1], str) and args[1].startswith('dns:'):
+        args = (args[0], args[1][4:]) + tuple(args[2:])      # written without prefix; the parser has the default namespace
     if action == 'NsStep':
         return f'namespace::{args[0]}'
     if action == 'NsParent':
@@ -138,6 +153,8 @@ def abbreviations(action: str, args: tuple) -> list[str]:
     if action not in ('Step', 'StepPred', 'DSlash', 'DSlashPred'):
         return []
     ax, t = args[0], args[1]
+    if t.startswith('dns:'):
+        t = t[4:]
     pred = f'[{args[2]}]' if action.endswith('Pred') else ''
     out = []
     if ax == 'child':
@@ -196,12 +213,13 @@ _sel_cache: dict = {}
 def get_selector(version: str, text: str):
     from elementpath import Selector
     key = (version, text)
+    ns, text = ns_for(text)
     s = _sel_cache.get(key)
     if s is None:
         if len(_sel_cache) > 300000:
             _sel_cache.clear()
         try:
-            s = Selector(text, namespaces=NS, parser=_parsers()[version])
+            s = Selector(text, namespaces=ns, parser=_parsers()[version])
         except Exception as e:  # parse failure is an observation, not a crash
             s = e
         _sel_cache[key] = s
@@ -220,20 +238,21 @@ def ep_eval(doc: Doc, root_cfg: str, version: str, text: str, mode: str):
     else:
         root, kw = doc.root, {'fragment': True}
     try:
+        ns, plain = ns_for(text)
         if mode == 'selector':
             sel = get_selector(version, text)
             if isinstance(sel, Exception):
                 raise sel
-            res = sel.select(root, namespaces=NS, **kw)
+            res = sel.select(root, namespaces=ns, **kw)
         elif mode == 'selector_iter':
             sel = get_selector(version, text)
             if isinstance(sel, Exception):
                 raise sel
-            res = list(sel.iter_select(root, namespaces=NS, **kw))
+            res = list(sel.iter_select(root, namespaces=ns, **kw))
         elif mode == 'select':
-            res = elementpath.select(root, text, namespaces=NS, parser=_parsers()[version], **kw)
+            res = elementpath.select(root, plain, namespaces=ns, parser=_parsers()[version], **kw)
         else:
-            res = list(elementpath.iter_select(root, text, namespaces=NS, parser=_parsers()[version], **kw))
+            res = list(elementpath.iter_select(root, plain, namespaces=ns, parser=_parsers()[version], **kw))
     except Exception as e:
         code = getattr(e, 'code', None)
         return ('err', type(e).__name__, code)
@@ -272,7 +291,7 @@ def kinds_of(kind: tuple, nodes) -> str:
 
 def tree_worker(job):
     """Replay every transition of one tree."""
-    (parent, kind, root_cfg, states, init_sid, out_edges, seed, modes_all) = job
+    (parent, kind, root_cfg, states, init_sid, out_edges, seed, modes_all, dns) = job
     docs = {'lxml': Doc(parent, kind, 'lxml')}
     if not docs['lxml'].doc_siblings:
         docs['etree'] = Doc(parent, kind, 'etree')      # xml.etree cannot hold document-level siblings
@@ -344,6 +363,8 @@ def tree_worker(job):
             for ab in abbreviations(action, args):
                 texts += extend(pre, action, args, root_cfg, last=ab)[:1]
             edge_ok = True
+            if dns:     # evaluated by parsers whose static context has the default element namespace urn:x
+                texts = [t + DNS_MARK for t in texts]
             for ti, text in enumerate(texts):
                 # second oracle: libxml2 (not for fragments: a parentless root has no libxml2 counterpart;
                 # lxml evaluates relative paths of a tree from the root element, so only absolute texts in R1;
@@ -401,7 +422,7 @@ def tree_worker(job):
                 edge_ok = False   # the virtual document is filtered from results: the real state is not observable, so
                                   # such a target is never used as a replay prefix (reported as unreached)
             if edge_ok and dst not in prefix:
-                prefix[dst] = texts[0]
+                prefix[dst] = texts[0].rstrip(DNS_MARK)
                 queue.append(dst)
                 if len(samples) < 2 and len(expected) > 1:
                     samples.append(dict(xml=docs['lxml'].xml(), root=root_cfg, path=prefix[dst], expected_ids=expected))
@@ -628,7 +649,8 @@ def run(chk: core.Check) -> None:
         tree_of = {sid: (st['parent'], st['kind']) for sid, st in g.states.items()}
         for s, d, a, args in g.edges:
             trees[tree_of[s]][2].setdefault(s, []).append((d, a, args))
-        jobs = [(p, k, consts['RootCfg'], sts, init, oe, chk.seed, False)
+        dns = any(t.startswith('dns:') for t in consts['Tests'])
+        jobs = [(p, k, consts['RootCfg'], sts, init, oe, chk.seed, False, dns)
                 for (p, k), (sts, init, oe) in trees.items()]
         n_edges = len(g.edges)
         del g
